@@ -32,6 +32,10 @@ def cur():
 def install_shims():
     runner_mod.threading = sched.ShimThreading(cur)
     runner_mod.time = sched.ShimTime(cur)
+    # locks created by the Interpreter (queue lock) must be visible to the scheduler as well
+    import sismic.interpreter.default as default_mod
+    if hasattr(default_mod, 'threading'):
+        default_mod.threading = sched.ShimThreading(cur)
 
 
 def make_chart():
@@ -368,6 +372,12 @@ def work(task):
         res['outcomes'][ex.outcome + ':' + ','.join(map(str, ex.world.consumed()))] += 1
         if res['nviol'] > 50:
             return True          # enough counterexamples from this subtree
+        if verdicts:
+            # a failing schedule is replayed before it is trusted: same choices must give the same log
+            again = run_one(dname, ex.choices())
+            if [e[1:] for e in again.log] != [e[1:] for e in ex.log] or judge(again) != verdicts:
+                verdicts = [('unstable', 'replaying the same schedule gave different observations (harness does not '
+                             'own all nondeterminism): %s vs %s' % (verdicts[:1], judge(again)[:1]))]
         for kind, msg in verdicts:
             sites = preempted_sites(ex)
             res['nviol'] += 1
